@@ -267,7 +267,67 @@ func showAnswers(as []*regex.Regex) string {
 	return "[" + strings.Join(parts, " ") + "]"
 }
 
+// c17Case is one regular expression, string, character, relation kind (0..7) and placeholder policy.
+type c17Case struct {
+	re    *rgx17
+	s     string
+	c     rune
+	kind  int
+	named bool
+}
+
+// enumRx17 lists all regular expressions with exactly n nodes over {∅, ε, a, b}.
+func enumRx17(n int) []*rgx17 {
+	if n == 1 {
+		return []*rgx17{{K: "set"}, {K: "eps"}, {K: "chr", C: 'a'}, {K: "chr", C: 'b'}}
+	}
+	out := []*rgx17{}
+	for _, a := range enumRx17(n - 1) {
+		out = append(out, &rgx17{K: "star", A: a})
+	}
+	for k := 1; k < n-1; k++ {
+		for _, a := range enumRx17(k) {
+			for _, b := range enumRx17(n - 1 - k) {
+				out = append(out, &rgx17{K: "or", A: a, B: b}, &rgx17{K: "cat", A: a, B: b})
+			}
+		}
+	}
+	return out
+}
+
+// sweepCases17: the exhaustive small scope used as failing-input search (and in the thorough tier): every expression
+// with at most 4 nodes (5 in the thorough tier) x every relation on ground input x strings up to length 2.
+func sweepCases17(tier string) []c17Case {
+	maxn := 4
+	if tier == "thorough" {
+		maxn = 5
+	}
+	out := []c17Case{}
+	for n := 1; n <= maxn; n++ {
+		for _, re := range enumRx17(n) {
+			named := len(out)%2 == 0
+			out = append(out, c17Case{re, "", 'a', 0, named}, c17Case{re, "", 'a', 1, !named})
+			for _, c := range []rune{'a', 'b'} {
+				out = append(out, c17Case{re, "", c, 2, named}, c17Case{re, "", c, 3, !named})
+			}
+			strs := []string{"", "a", "b", "ab", "ba", "aa", "bb"}
+			if n == 5 {
+				strs = []string{"a", "ab", "bb"}
+			}
+			for j, s := range strs {
+				out = append(out, c17Case{re, s, 'a', 4 + j%2, named}, c17Case{re, s, 'a', 5 - j%2, !named})
+			}
+		}
+	}
+	return out
+}
+
 func runC17(cfg *Config) *Report {
+	sweep := []c17Case(nil)
+	if cfg.Mode == "sweep" {
+		sweep = sweepCases17(cfg.Tier)
+		cfg.N = len(sweep)
+	}
 	rep := newReport()
 	rep.Rule = "ground regular expressions of size 1..5 over {a,b} x strings of length 0..3 x relation in {NullO, IsNullO, DerivO, SDerivO, MatchO, IsMatchO} x both placeholder policies, ALL answers; plus generation mode (unknown string / unknown derivative) for the first n answers; non-trivial = the regex contains a concatenation or star with a nullable prefix, or the string has length >= 2; distinct by printed case"
 	r := newRand(cfg.Seed)
@@ -294,6 +354,14 @@ func runC17(cfg *Config) *Report {
 			kind = []int{4, 5, 2, 3, 0, 4}[(i/len(fixed))%6]
 		}
 		named := r.Intn(2) == 0
+		if sweep != nil {
+			if cfg.NShards > 1 && i*cfg.NShards/cfg.N != cfg.Shard {
+				rep.CaseDesc = append(rep.CaseDesc, "")
+				rep.CaseObs = append(rep.CaseObs, "")
+				continue
+			}
+			re, s, c, kind, named = sweep[i].re, sweep[i].s, sweep[i].c, sweep[i].kind, sweep[i].named
+		}
 		if cfg.Only >= 0 && cfg.Only != i {
 			rep.CaseDesc = append(rep.CaseDesc, "")
 			rep.CaseObs = append(rep.CaseObs, "")
